@@ -25,9 +25,9 @@ def main():
     except SystemExit:
         raise
     except BaseException:
-        traceback.print_exc()
+        traceback.print_exc(file=sys.stdout)
         # a crashing check must not pass silently
-        print(f'[{prop}] check machinery crashed', file=sys.stderr)
+        print(f'[{prop}] check machinery crashed')
         code = 2
     sys.stdout.flush()
     os._exit(code)
